@@ -71,9 +71,15 @@ func (d *dbConn) RegisterObservationLog(trialName string, observationLog *v1beta
 	values := []interface{}{}
 
 	index_of_qparam := 1
+	if observationLog == nil {
+		return fmt.Errorf("Observation log is missing in the request")
+	}
 	for _, mlog := range observationLog.MetricLogs {
-		if mlog.TimeStamp == "" {
+		if mlog.GetTimeStamp() == "" {
 			continue
+		}
+		if mlog.Metric == nil {
+			return fmt.Errorf("Metric is missing in the metric log at %s", mlog.TimeStamp)
 		}
 		t, err := time.Parse(time.RFC3339Nano, mlog.TimeStamp)
 		if err != nil {
